@@ -45,6 +45,8 @@ type rewriter struct {
 	needSched bool
 	needFuel  bool
 	needEnv   bool
+	needFS    bool
+	fileOps   bool // the file reads/writes of this file go through vfs: its renames/removes must too
 	errs      []string
 	tmp       int
 	stats     map[string]int
@@ -378,6 +380,11 @@ func (r *rewriter) expr(e ast.Expr) ast.Expr {
 				r.stats["kill"]++
 				n.Fun = sel("venv", "Kill")
 			}
+			if x, ok := se.X.(*ast.Ident); ok && x.Name == "os" && (se.Sel.Name == "Rename" || se.Sel.Name == "Remove") && r.fileOps {
+				r.needFS = true
+				r.stats["fileop"]++
+				n.Fun = sel("vfs", se.Sel.Name)
+			}
 		}
 		n.Fun = r.expr(n.Fun)
 		for i := range n.Args {
@@ -422,6 +429,9 @@ func (r *rewriter) rewriteFile(f *ast.File) {
 			}
 			imp.Name = ast.NewIdent(m[0])
 			imp.Path.Value = strconv.Quote(shimImport + m[1])
+			if m[1] == "vfs" {
+				r.fileOps = true
+			}
 			r.stats["import:"+p]++
 		}
 	}
@@ -461,6 +471,9 @@ func (r *rewriter) rewriteFile(f *ast.File) {
 	}
 	if r.needEnv {
 		add("venv")
+	}
+	if r.needFS {
+		add("vfs")
 	}
 }
 
